@@ -376,6 +376,13 @@ model-level reference: `_can_add` refuses; the cells was there before the refere
 def shadowedCells (st st' : SM.St) : List String :=
   ((cellMembers st').filter (fun e => (st.mem .cells e.1 e.2).isNone && st.globals.contains e.2)).map (·.2)
 
+/-- `BaseSpaceImpl.on_delete` (/repo 40cbe69), per deleted space: `clear_attr_referrers` of every model-level
+reference whose name no own reference and no cells of the space hides – it may have been read through
+attribute access to the space (ALL attribute-path readers of that reference go, through whatever space) -/
+def orphanClears (t : Tabs) (st : SM.St) (p : Path) : List Clear :=
+  (st.ids.filter (SM.isPrefix p)).flatMap (fun r =>
+    (st.globals.filter (fun x => (st.mem .refs r x).isNone && (st.mem .cells r x).isNone)).flatMap (globalAttr t st))
+
 /-- `if name in self.model.global_refs: clear_attr_referrers(global_refs[name])` of `on_create_ref`
 (every `space.x = v`: `new_ref` and `change_ref` both end in `on_create_ref` of the space itself, and of
 the sub spaces that get or re-get the reference) and of `UserSpaceImpl.on_inherit` (a reference derived
@@ -385,6 +392,7 @@ space that did not exist) -/
 def shadowClears (t : Tabs) (st st' : SM.St) : SM.Op → List Clear
   | .setRef _ name _ => if st.globals.contains name then globalAttr t st name else []
   | .newSpace _ _ _ _ => (shadowed st st' true ++ shadowedCells st st').flatMap (globalAttr t st)
+  | .delSpace p => (shadowed st st' false ++ shadowedCells st st').flatMap (globalAttr t st) ++ orphanClears t st p
   | _ => (shadowed st st' false ++ shadowedCells st st').flatMap (globalAttr t st)
 
 /-- the whole clearing of an accepted structural operation -/
@@ -506,9 +514,8 @@ def covered (t : Tabs) (st st' : SM.St) (cl : List Clear) : Bool :=
     -- a slot that denotes another reference / value than before (a reference starts or stops shadowing
     -- the model-level one, ...)
     (st.globals ++ st'.globals).all (fun x =>
-      -- (a space that is deleted: an attribute path through it is an object-valued reference to a deleted
-      -- space - not in the machine)
-      !st'.has q || refPay t st' q x == refPay t st q x ||
+      -- (a space that is deleted: `on_delete` clears the readers of the model-level references seen through it)
+      refPay t st' q x == refPay t st q x ||
         ((cellsOf t st q).all (touchedBy cl) &&
           ((refPay t st q x).isNone || cl.contains (Clear.attr (t.rid q x))))))
 
